@@ -47,17 +47,27 @@ Kids(T) ==
     [] T[1] = "newtype" -> <<T[3]>>
     [] OTHER -> <<>>
 
+\* the settings ONE call runs with: the builder's own (Cfg0), or -- for build_json_schema(T, context=builder.context, <keyword>) --
+\* the builder's with the keyword applied TO THAT CALL ONLY (the caller's context object keeps its settings; only the
+\* definitions mapping is shared with it)
+Cfg0 == [refmode |-> RefMode, prefix |-> EffPrefix]
+OvCfg(ov) == CASE ov = "inline" -> [Cfg0 EXCEPT !.refmode = FALSE]          \* all_refs=False
+               [] ov = "refs"   -> [Cfg0 EXCEPT !.refmode = TRUE]           \* all_refs=True
+               [] ov = "prefix" -> [Cfg0 EXCEPT !.prefix = "#/y"]           \* ref_prefix="#/y/"
+               [] OTHER -> Cfg0
+
 \* walk state: [defs |-> collected definitions, out |-> references emitted into the schema under construction]
-RECURSIVE Visit(_, _)
-RECURSIVE VisitSeq(_, _)
-VisitSeq(ts, st) == IF ts = <<>> THEN st ELSE VisitSeq(Tail(ts), Visit(Head(ts), st))
-Visit(T, st) ==
-  IF T[1] = "dc" /\ RefMode
+RECURSIVE VisitC(_, _, _)
+RECURSIVE VisitSeqC(_, _, _)
+VisitSeqC(ts, st, c) == IF ts = <<>> THEN st ELSE VisitSeqC(Tail(ts), VisitC(Head(ts), st, c), c)
+VisitC(T, st, c) ==
+  IF T[1] = "dc" /\ c.refmode
   THEN IF Mode = "fastpath" /\ T[2] \in DOMAIN st.defs
        THEN [defs |-> st.defs, out |-> st.out \cup { <<RootPointer, T[2]>> }]
-       ELSE LET inner == VisitSeq(Kids(T), [defs |-> st.defs, out |-> {}]) IN
-            [defs |-> (T[2] :> inner.out) @@ inner.defs, out |-> st.out \cup { <<EffPrefix, T[2]>> }]
-  ELSE VisitSeq(Kids(T), st)
+       ELSE LET inner == VisitSeqC(Kids(T), [defs |-> st.defs, out |-> {}], c) IN
+            [defs |-> (T[2] :> inner.out) @@ inner.defs, out |-> st.out \cup { <<c.prefix, T[2]>> }]
+  ELSE VisitSeqC(Kids(T), st, c)
+Visit(T, st) == VisitC(T, st, Cfg0)
 
 Fresh == [defs |-> <<>>, out |-> {}]
 RefsIn(st) == st.out \cup UNION { st.defs[n] : n \in DOMAIN st.defs }
